@@ -145,11 +145,15 @@ func C08(c *core.Ctx) {
 		}
 		c.Floor("R1", k, 1, "response constructor calls in "+h)
 		// R2: destination
-		for _, s := range core.Calls(fn, sendRsp) {
-			args := core.CallArgs(s)
-			c.Check("R2", "destination:"+h, s.Pos(), args[1] == ssa.Value(addr), "the response is sent to the address the handler was given")
+		for _, rs := range p.CallsThrough(fn, sendRsp, 2) {
+			s := rs.Site
+			args := rs.Args[1:]
+			c.Check("R2", "destination:"+h, s.Pos(), args[1] != nil && args[1] == ssa.Value(addr), "the response is sent to the address the handler was given")
 			// the message sent is one built in this handler
-			_, built := core.Unwrap(args[0]).(*ssa.Call)
+			built := false
+			if args[0] != nil {
+				_, built = core.Unwrap(args[0]).(*ssa.Call)
+			}
 			c.Check("R2", "sends-built-response:"+h, s.Pos(), built, "what is sent is the response built by this handler")
 		}
 	}
@@ -240,8 +244,12 @@ func C08(c *core.Ctx) {
 		}
 		// accepted-response sends: sendRspTo calls whose message carries cause 1 (or no cause at all: heartbeat)
 		var accepted []ssa.Instruction
-		for _, s := range core.Calls(fn, sendRsp) {
-			msg := core.Unwrap(core.CallArgs(s)[0])
+		for _, rs := range p.CallsThrough(fn, sendRsp, 2) {
+			s := rs.Site
+			if rs.Args[1] == nil {
+				continue
+			}
+			msg := core.Unwrap(rs.Args[1])
 			isNF := false
 			if mc, ok := msg.(*ssa.Call); ok {
 				a := core.CallArgs(mc)
